@@ -97,7 +97,7 @@ def run(ctx, R, tier):
                 # the constant packed must be the constant the decoder compares the unpacked local with
                 cmp_ok = False
                 for n in walk_no_nested(rcv.node):
-                    if isinstance(n, ast.Compare) and len(n.ops) == 1 and isinstance(n.ops[0], ast.NotEq) and unparse(n.left) == unparse(tg):
+                    if isinstance(n, ast.Compare) and len(n.ops) == 1 and isinstance(n.ops[0], (ast.NotEq, ast.Eq)) and unparse(n.left) == unparse(tg):
                         other = n.comparators[0]
                         if const_roles[i] is None:
                             cmp_ok = isinstance(other, ast.Constant) and isinstance(pv, ast.Constant) and other.value == pv.value
